@@ -12,6 +12,7 @@ package main
 //	harness c18fresh-child <curve> <op> <hex coordinates...>
 
 import (
+	"bufio"
 	"encoding/hex"
 	"encoding/json"
 	"flag"
@@ -28,6 +29,42 @@ func init() {
 	register("c18fresh", runC18Fresh)
 	register("c18fresh-child", runC18FreshChild)
 	register("c18fresh-mimc", runC18FreshMimcChild)
+	register("c18fresh-edset", runC18FreshEdSetChild)
+}
+
+// c18fresh-edset <curve> <hex encoding>: PointAffine.SetBytes as the first library call of the process (the decompression
+// solves the curve equation, which needs the lazily initialised parameters); the event has the format of the C07 driver
+func runC18FreshEdSetChild(args []string) {
+	e := edwards[args[0]]
+	buf, _ := hex.DecodeString(args[1])
+	rec := &TraceWriter{w: bufio.NewWriter(os.Stdout)}
+	e.c07Set(rec, "SetBytes", buf, "fresh", reflect.New(e.AffT))
+	rec.w.Flush()
+}
+
+// edSetFresh: for every twisted Edwards package, the decoding of one valid point in a fresh process and again in this one,
+// judged by spec/C07_codec/TraceCodecEd
+func edSetFresh(out string, seed uint64) int {
+	total := 0
+	for _, name := range edwardsNames {
+		e := edwards[name]
+		_, _, _, base := e.params()
+		p := reflect.New(e.AffT)
+		method(p, "ScalarMultiplication").Call([]reflect.Value{base, reflect.ValueOf(big.NewInt(int64(7 + seed%50)))})
+		enc := c07ArrayBytes(method(p, "Bytes").Call(nil)[0])
+		t := newTrace(out, "c18freshed_"+name, Ev{"property": "C18", "kind": "ed", "edwards": name, "seed": int(seed % (1 << 30))})
+		cmd := exec.Command(os.Args[0], "c18fresh-edset", name, hex.EncodeToString(enc))
+		cmd.Stderr = os.Stderr
+		b, err := cmd.Output()
+		var ev Ev
+		if err != nil || json.Unmarshal(b, &ev) != nil {
+			ev = Ev{"op": "SetBytes", "buf": bytesToInts(enc), "cls": "fresh", "panic": fmt.Sprintf("child process failed: %v", err)}
+		}
+		t.Emit(ev)
+		e.c07Set(t, "SetBytes", enc, "warm", reflect.New(e.AffT))
+		total += t.Close()
+	}
+	return total
 }
 
 // c18fresh-mimc <instance index> <hex message>: the package-level mimc.Sum as the first library call of the process
@@ -234,5 +271,6 @@ func runC18Fresh(args []string) {
 		total += t.Close()
 	}
 	total += mimcFresh(*out, *seed)
+	total += edSetFresh(*out, *seed)
 	fmt.Printf("c18fresh: %d events\n", total)
 }
